@@ -85,7 +85,7 @@ func runC09(r *ev.Run) {
 		hashes := map[string]string{} // segment file -> sha256 at the time it was first seen after an acknowledged flush
 		var maxSeen uint64
 		nSessions := 1 + rng.IntN(4)
-		midFlushes, rotations := 0, 0
+		midFlushes, rotations, faults := 0, 0, 0
 		verifyDir := func(when string) {
 			files, err := segmentFiles(dir)
 			if err != nil {
@@ -192,6 +192,38 @@ func runC09(r *ev.Run) {
 				docVecs[d.ID] = cloneF32(d.Vec)
 				log = append(log, fmt.Sprintf("add %d", d.ID))
 				if rng.IntN(8) == 0 {
+					switch rng.IntN(6) {
+					case 0:
+						// the writable memtable is rotated out first (Train() and a rejected oversized Add do the same):
+						// Flush must persist frozen memtables too
+						s.VerifRotate()
+						log = append(log, "rotate")
+					case 1:
+						// injected I/O fault: the next segment's <comp> file cannot be created. Flush must say so (or
+						// succeed for real); once the fault is gone a Flush that returns nil must have persisted everything
+						comps := []string{"hybrid"}
+						if p.VecKind != "" {
+							comps = append(comps, "vector")
+						}
+						if p.Text {
+							comps = append(comps, "text")
+						}
+						if p.Meta {
+							comps = append(comps, "metadata")
+						}
+						comp := comps[rng.IntN(len(comps))]
+						obst := obstructNextSegments(dir, comp, 3)
+						err := s.Flush()
+						clearObstacles(obst)
+						log = append(log, fmt.Sprintf("Flush with the next %s files obstructed -> %v", comp, err))
+						if err != nil {
+							faults++
+							r.Count("io-faults:flush-failed-then-retried", 1)
+							checkFound(s, "same-handle-after-failed-flush")
+						} else {
+							r.Count("io-faults:not-hit", 1)
+						}
+					}
 					if err := s.Flush(); err != nil {
 						rep("store.flush-error", err.Error())
 						break
@@ -204,6 +236,23 @@ func runC09(r *ev.Run) {
 					midFlushes++
 					verifyDir("after-flush")
 					checkFound(s, "same-handle-after-flush")
+					// the process may end right after the acknowledgement: the directory as it is NOW must reopen complete
+					if img, err := readImage(dir); err == nil && !dead {
+						idir, err := os.MkdirTemp("", "verif-c09img-*")
+						if err != nil {
+							panic(err)
+						}
+						if err := img.materialise(idir); err != nil {
+							panic(err)
+						}
+						if rs, err := p.open(idir); err != nil {
+							rep("store.open-error", fmt.Sprintf("image taken right after Flush returned nil: %v", err))
+						} else {
+							checkFound(rs, "image-right-after-flush-ack")
+							rs.Close()
+						}
+						os.RemoveAll(idir)
+					}
 				}
 			}
 			if dead {
@@ -286,6 +335,7 @@ func runC09(r *ev.Run) {
 		r.Count("sessions", int64(nSessions))
 		r.Count("segments-written", int64(len(segs)))
 		r.Count("cases:vec="+p.VecKind, 1)
+		_ = faults
 		r.Eval(nSessions >= 2 && midFlushes >= 1 && rotations >= 1 && len(segs) >= 2, ev.Digest(p.String(), nSessions, midFlushes, len(durable), ci))
 	})
 	c09AckThenRestart(r)
